@@ -56,6 +56,10 @@ def ccmd(c):
     if k == "feature-gate":
         return "FeatureGate %s %s %s %s" % (opt(c.get("has_policy"), g("policy")), opt(c.get("has_status"), g("fg_status")),
                                             cn(g("epi")), cn(g("esi")))
+    if k == "rpc-cfg-apply":
+        return "RpcCfgApply %s %s %s %s %s" % (cb(c.get("cas", False)), ckey(c), cn(g("content")), cn(g("status")), cn(g("index")))
+    if k == "rpc-cfg-delete":
+        return "RpcCfgDelete %s %s %s" % (cb(c.get("cas", False)), ckey(c), cn(g("index")))
     raise ValueError("unknown cas command " + k)
 
 
